@@ -39,7 +39,8 @@ TYPES = {
     "Integer:bounded": ("0...999", "12"), "Decimal:bounded": ("0...999.5", "1.5"),
 }
 SPELLINGS = ["0042", "+12", "00000012", "012", "-0", "1_2", "12.0", "1.50", "0001.5", "+1.5"]
-LENGTHS = [None, [[2, 2]], [[3, 3]], [[2, None]], [[None, 3]], [[1, 2], [8, 8]]]
+LENGTHS = [None, [[2, 2]], [[3, 3]], [[2, None]], [[None, 3]], [[1, 2], [8, 8]],
+           [[0, 0]], [[None, 0]], [[None, 1], [3, None]]]      # a column that must stay empty; open at both ends with a gap
 ALLOWED = [None, [[32, 126]], [[46, 57], [97, 122]], [[0, 97]]]    # the last one excludes letters of the good values
 FORMATS = ["delimited", "fixed", "excel", "ods"]
 BLANKS = [" ", "   ", "\t ", "  "]
